@@ -934,6 +934,7 @@ def gen_history(rng, deck_name, n):
     nslides = len(pres["idl"])
     nlay = 11
     tbs = {}
+    links = {}   # (slide, text box, which) -> url or ("jump", k): what the generator believes is set
     ops = []
 
     def slide():
@@ -947,8 +948,31 @@ def gen_history(rng, deck_name, n):
     kinds = ["SL"] * 5 + ["PS"] * 5 + ["PI"] * 4 + ["IP"] * 2 + ["MV"] * 3 + ["CH"] * 3 + ["RD"] * 2 + ["OL"] * 3 + ["NT"] * 3 \
         + ["LK"] * 6 + ["CL"] * 3 + ["RL"] * 2 + ["JP"] * 4 + ["CJ"] * 2 + ["NJ"] * 2 + ["CN"] * 2 + ["RM"] * 2 + ["CP"] + ["SV"] * 4 \
         + ["AS"] * 2 + ["PB"]
-    for _ in range(n):
+    # a quarter of the histories open with two references to one relationship on slide 0
+    if rng.random() < 0.25 and n >= 4:
+        if nslides == 0:
+            ops.append(("SL", 6))
+            nslides = 1
+        ops += [("PS", 0), ("PS", 0)]
+        tbs[0] = tbs.get(0, 0) + 2
+        a, b = tbs[0] - 2, tbs[0] - 1
+        if rng.random() < 0.6:
+            u = rng.choice(URLS)
+            w2 = rng.choice("cr")
+            ops += [("LK", "c", 0, a, u), ("LK", w2, 0, rng.choice([a, b]) if w2 == "r" else b, u)]
+            links[(0, a, "c")] = u
+            links[ops[-1][2], ops[-1][3], ops[-1][1]] = u
+        else:
+            kk = rng.randrange(nslides)
+            ops += [("JP", 0, a, kk), ("JP", 0, b, kk)]
+            links[(0, a, "c")] = ("jump", kk)
+            links[(0, b, "c")] = ("jump", kk)
+        n = max(1, n - len(ops))
+    for step in range(n):
         k = rng.choice(kinds)
+        # early in a history make sure there is something to aim at
+        if step < 3 and rng.random() < 0.6:
+            k = "SL" if (nslides == 0 or rng.random() < 0.4) else "PS"
         if k == "SL":
             l = rng.choice([6, 8, 8, 1, 5, rng.randrange(12)])
             ops.append(("SL", l))
@@ -990,16 +1014,35 @@ def gen_history(rng, deck_name, n):
             else:
                 i, j = slide(), rng.randrange(2)
             w = rng.choice("cr")
+            # share relationships on purpose: the same URL / target slide on several slots of one slide,
+            # and clear slots that are set
+            same = [(key, v) for key, v in links.items() if key[0] == i]
+            if k in ("CL", "CJ", "RL") and same and rng.random() < 0.7:
+                (i, j, w), _v = rng.choice(same)
+                if k == "CJ":
+                    w = "c"
             if k == "LK":
-                ops.append(("LK", w, i, j, rng.choice(URLS + [""])))
+                urls = [v for _key, v in same if isinstance(v, str)]
+                u = rng.choice(urls) if (urls and rng.random() < 0.5) else rng.choice(URLS + [""])
+                ops.append(("LK", w, i, j, u))
+                if u:
+                    links[(i, j, w)] = u
+                else:
+                    links.pop((i, j, w), None)
             elif k == "CL":
                 ops.append(("CL", w, i, j))
+                links.pop((i, j, w), None)
             elif k == "RL":
                 ops.append(("RL", w, i, j))
             elif k == "JP":
-                ops.append(("JP", i, j, slide()))
+                tgts = [v[1] for _key, v in same if isinstance(v, tuple)]
+                kk = rng.choice(tgts) if (tgts and rng.random() < 0.5) else slide()
+                ops.append(("JP", i, j, kk))
+                if kk < nslides:
+                    links[(i, j, "c")] = ("jump", kk)
             else:
                 ops.append(("CJ", i, j))
+                links.pop((i, j, "c"), None)
         elif k == "NJ":
             i = slide()
             ops.append(("NJ", i, i if rng.random() < 0.5 else slide()))
@@ -1163,7 +1206,7 @@ def run(ck, tier, rng):
         ck.violation("translator", "tx_c01 failed on the current tree: " + out[-600:],
                      {"theorem_or_correspondence": "translator tx_c01 (default_content_types for C02_ex_tables_live)"}, concrete=False)
     ck.build = coq_build("C02", extra_targets=["gen/GenC01.vo"])
-    nh = 150 if tier == "quick" else 3000
+    nh = 400 if tier == "quick" else 3000
     maxlen = 12 if tier == "quick" else 40
     jobs = [(rng.getrandbits(48), maxlen) for _ in range(nh)]
     decks()
@@ -1259,7 +1302,7 @@ def replay(rec):
 
 CLAIM = {
     "tech": "Coq proof over a Gallina state machine of the package graph (parts, relationships, r:* references, lazyproperty caches) + extracted-model correspondence on random public-API histories + independent zip oracle at every prefix + re-open comparison",
-    "text": "PLACEHOLDER",
-    "note": "PLACEHOLDER",
+    "text": "22 theorems (C02_*) closed under the global context over a faithful model of the part/relationship operations (21 operation kinds incl. refused calls and read accesses): every operation preserves a state invariant Inv (C02_step, C02_reachable, no size bound), Inv gives Closed for every package any save of any history writes (C02_save_closed, C02_every_save_closed: unique members, one content type per part equal to the created/loaded one, every internal Target names the member of the part the relationship points to, every r:* id defined, officeDocument reaches the presentation part) and re-opening by name resolution gives back the graph (C02_reopen); drop_rel reference counting (C02_drop_rel_*), the implicit-relationship edge (C02_implicit_rel_*) and the regression witness of the repaired stale-Target defect (C02_stale_target_regression). The model is tied to python-pptx by executing random public-API histories on both and comparing the whole abstract state after every step and every saved zip; an independent oracle (zipfile + lxml) evaluates the statement on every saved file and re-opens it.",
+    "note": "The XML of a part is represented by the r:* references it holds (shape XML itself is C03); shape kinds without parts collapse to one text-box operation; lxml, zipfile, Pillow, XlsxWriter payloads are outside the model; C02_reopen states the loader's name resolution structurally (that _PackageLoader performs it is C01); Override part names are compared exactly in the model (names differing only in case are outside; the oracle compares them the OPC way); hypotheses Inv(init deck) and tables_ok are evaluated in their decidable, proved-sound forms on every deck, every reached state and the live default_content_types; use-after-remove of a layout object and 2^31 slides are outside the operation alphabet.",
     "ref": "6/C02",
 }
